@@ -5,6 +5,7 @@ package main
 // most 5 loggers, state = (tree shape, format of every logger).
 
 import (
+	"log"
 	"os"
 	"encoding/json"
 	"errors"
@@ -151,6 +152,7 @@ func c11rootModel(root int) c11model {
 }
 
 type c11world struct {
+	bridges map[*slog.Entry]*log.Logger // a std log bridge per logger, built when the logger enters the world and used after every operation
 	loggers []*slog.Entry
 	rec     *recorder
 	model   c11model
@@ -296,6 +298,24 @@ func (w *c11world) check(probe bool, first ...int) (clause, detail string) {
 		want := w.model.fmts[i]
 		if l.JSONMode() != (want == "json") || l.ColorMode() != (want == "color") {
 			return "getters", fmt.Sprintf("logger L%d: model state %s, JSONMode()=%v ColorMode()=%v", i, want, l.JSONMode(), l.ColorMode())
+		}
+		// a line through the std log bridge that was built on this logger when it was created (and has printed before every
+		// mode call since): its shape follows the logger's format like any other record
+		if w.bridges == nil {
+			w.bridges = map[*slog.Entry]*log.Logger{}
+		}
+		br := w.bridges[l]
+		if br == nil {
+			br = slog.NewLogLogger(l, slog.AlwaysLevel)
+			w.bridges[l] = br
+		}
+		w.rec.reset()
+		br.Print("through the bridge")
+		if len(w.rec.events) != 1 {
+			return "record-shape", fmt.Sprintf("logger L%d: %d writes for a line through its std log bridge", i, len(w.rec.events))
+		}
+		if got := classifyRecord(w.rec.events[0].Payload); got != want {
+			return "record-shape", fmt.Sprintf("logger L%d: model state %s but a line through the std log bridge built on it looks like %s: %.120q", i, want, got, w.rec.events[0].Payload)
 		}
 		if wantP := w.model.parent[i]; wantP >= 0 && l.Parent() != w.loggers[wantP] {
 			return "tree", fmt.Sprintf("logger L%d: parent is not L%d", i, wantP)
